@@ -128,13 +128,28 @@ func runC08(c *an.Ctx) {
 			}
 		}
 	}
+	// ... and the package-local helpers those functions call (a block of the append path moved into a helper stays in scope)
+	for changed := true; changed; {
+		changed = false
+		for _, fn := range tfns {
+			if !inPath[fn] {
+				continue
+			}
+			for _, call := range an.AllCalls(fn) {
+				if g := an.Callee(call).Static; g != nil && tgraph.In[g] && !inPath[g] {
+					inPath[g] = true
+					changed = true
+				}
+			}
+		}
+	}
 	var path []*ssa.Function
 	for _, fn := range tfns {
 		if inPath[fn] {
 			path = append(path, fn)
 		}
 	}
-	c.Min("append-path functions (callers of the refill helper + helper)", len(path), 3)
+	c.Min("append-path functions (callers of the refill helper + helper)", len(path), 1)
 	only := func(fn *ssa.Function) bool { return inPath[fn] }
 
 	// ---- O1: shared coupling rule on the helpers the append path relies on, plus replace-last-child
@@ -217,7 +232,7 @@ func runC08(c *an.Ctx) {
 	for _, fn := range path {
 		nAdd += len(an.Calls(fn, addChild))
 	}
-	c.Min("O2 AddChild calls in the append path", nAdd, 2)
+	c.Min("O2 AddChild calls in the append path", nAdd, 1)
 
 	// feedsDepth: the value reaches the depth argument of the layer-filling function, directly or through parameters
 	// of package-local helpers
@@ -303,7 +318,7 @@ func runC08(c *an.Ctx) {
 				fmt.Sprintf("after %s(...) the layer counter feeding the continuation loop is incremented (%v) on a path where the repeat argument may be 0; the callee completes the current layer only when repeat != 0, so a layer is skipped and later children are built deeper than their position allows (VerifyTrickleDagStructure: child dag was too deep)", refill.Name(), bad))
 		}
 	}
-	c.Min("O3 calls of the refill helper", nO3, 2)
+	c.Min("O3 calls of the refill helper", nO3, 1)
 
 	// ---- O3b: the refill helper finishes the partially filled layer before it reports success.
 	// Its callers advance the layer counter whenever repeat != 0, so a success return that skips the top-up loop
@@ -414,7 +429,7 @@ func runC08(c *an.Ctx) {
 		c.Check(ok, "O1", "R-DOM", an.FuncName(app), "success-return<=builder-drained", pos,
 			"Append returns success only where db.Done() was tested true", "Append can return success while the splitter may still hold data: appended bytes are silently dropped")
 	}
-	c.Min("O1 Commit() calls in the append path", c07CommitAfterMutations(c, path, only), 3)
+	c.Min("O1 Commit() calls in the append path", c07CommitAfterMutations(c, path, only), 1)
 
 	// ---- O4: constants and layer arguments
 	info := p.Func(c07Tr, "", "trickleDepthInfo")
@@ -466,7 +481,7 @@ func runC08(c *an.Ctx) {
 				c.Check(ok, "O4", "R-FLOW", an.FuncName(fn), "trickleDepthInfo(_,db.Maxlinks())", call.Pos(), "depth inference uses the builder's Maxlinks()", "trickleDepthInfo is called with a width that is not db.Maxlinks(): depth inference and layer filling use different widths")
 			}
 		}
-		c.Min("O4 trickleDepthInfo calls", nCall, 2)
+		c.Min("O4 trickleDepthInfo calls", nCall, 1)
 	}
 	// layer-filling loops: fillTrickleRec(db, <fresh node>, <loop layer counter>) inside a depthRepeat-bounded loop
 	nFill := 0
@@ -498,7 +513,7 @@ func runC08(c *an.Ctx) {
 				"the depth given to fillTrickleRec is the layer counter, not the repeat counter", "fillTrickleRec receives the repeat counter as maximum depth: sub-DAG depth varies inside one layer")
 		}
 	}
-	c.Min("O4 layer-filling calls of fillTrickleRec inside loops", nFill, 2)
+	c.Min("O4 layer-filling calls of fillTrickleRec inside loops", nFill, 1)
 
 	// ---- advisory: clone disagreement between the callers of the refill helper
 	var shapes []string
